@@ -122,6 +122,7 @@ def run(ctx):
             ctx.check('R1', 'no reset of the async exception follows the request on the success path', not cancel, 'utils.foreign_raise',
                       'request-cancelled', 'foreign_raise clears the pending asynchronous exception after setting it', where=loc(fr, fr.node))
 
+    check_poll(ctx)
     n_hops = 0
     for cls in classes:
         lc = lifecycle(ctx, cls)
@@ -636,3 +637,36 @@ def check_closure_propagates(ctx, cls, lc):
                           where=loc(f, h.stmt), path=path_str(leaves or []))
     ctx.stats.setdefault('closure_handler_landings', 0)
     ctx.stats['closure_handler_landings'] += n
+
+
+def check_poll(ctx):
+    """PipeEndpoint.poll(timeout): the timeout is handed to Connection.poll unchanged - in particular None (wait for ever) is not turned into a
+    non-blocking poll.  ProcessWorker.terminate waits with it for the child's acknowledgement before it releases the child."""
+    PE = ctx.prog.cls('PipeEndpoint')
+    f = PE.methods.get('poll')
+    ctx.require(f is not None, 'PipeEndpoint.poll not found')
+    ctx.used(f)
+    g = ctx.an.cfg(f, PE)
+    par = f.params[1] if len(f.params) > 1 else None
+    bare = [n for n in g.nodes if n.stmt is not None and n.part in ('eval',) and any(last_attr(c) == 'poll' and receiver(c) == 'self._pipe' and not c.args and not c.keywords for c in n.calls())]
+    passing = [n for n in g.nodes if n.stmt is not None and n.part in ('eval',) and any(last_attr(c) == 'poll' and receiver(c) == 'self._pipe' and c.args and is_name(c.args[0], par) for c in n.calls())]
+    ctx.check('R1', 'PipeEndpoint.poll hands its timeout to Connection.poll', bool(passing), 'PipeEndpoint.poll', 'poll-ignores-timeout', 'PipeEndpoint.poll never passes its timeout on',
+              where=loc(f, f.node))
+    # the non-blocking form is only reachable when the timeout is the number zero (a test that can never be true counts as unreachable)
+    def edge_ok(e):
+        if e.kind == 'async':
+            return False
+        if e.src.kind == 'test' and isinstance(e.src.stmt, ast.If):
+            t = e.src.stmt.test
+            if isinstance(t, ast.Compare) and len(t.ops) == 1 and isinstance(t.ops[0], ast.Eq) and isinstance(t.left, ast.Name):
+                r = ctx.prog.resolve_dotted(f.module, t.left.id)
+                if r and r[0] in ('ext', 'module') and e.kind == 'true':
+                    return False          # a module object never equals a number
+                if t.left.id == par and isinstance(t.comparators[0], ast.Constant) and t.comparators[0].value == 0 and e.kind == 'true':
+                    return False          # timeout == 0: non-blocking is what was asked for
+        return True
+    p = g.find_path([g.entry], lambda n: n in bare, edge_ok=edge_ok)
+    ctx.check('R1', 'PipeEndpoint.poll polls without a timeout only for timeout == 0', p is None, 'PipeEndpoint.poll', 'poll-drops-infinite-timeout',
+              'PipeEndpoint.poll turns a timeout of None (wait for ever) into a non-blocking poll: ProcessWorker.terminate(timeout=None) no longer waits for the child to acknowledge the '
+              'request before it releases it, so a persistent child can read the release token first and finish "normally" - terminate() returns True with has_error False',
+              where=loc(f, f.node), path=path_str(p or []))
